@@ -71,8 +71,8 @@ CHECKS = {
         "5/C11",
     ),
     "C12": (
-        "trace checker over dask scheduler events (harness-owned scheduler callable + dask Callback with injected sleeps) + relation monitor dask fit vs numpy fit",
-        "Every scheduler entry during fit(compute=False, check_nans=False) / rotator.fit(compute=False) is an observed event carrying the innermost xeofs frame (must be zero); results must be dask-backed before and numpy after compute(); the computed model is compared with the numpy fit for every class x chunk layout x scheduler (sync, 1/2/4/16 threads, injected delays); evidence lists the distinct task-completion orders actually observed.",
+        "trace checker over dask scheduler events (harness-owned scheduler callable + dask Callback with injected sleeps) + counting-source monitor (chunk loads of the user's array observed when the stored input is evaluated) + relation monitor dask fit vs numpy fit (results, transform, reconstruction)",
+        "Every scheduler entry during fit(compute=False, check_nans=False) / rotator.fit(compute=False) is an observed event carrying the innermost xeofs frame (must be zero); results must be dask-backed before and numpy after compute(); the computed model is compared with the numpy fit for every class x chunk layout x scheduler (sync, 1/2/4/16 threads, injected delays); evidence lists the distinct task-completion orders actually observed; the computed model must also transform / reconstruct like the in-memory one, eager dask fits with fully missing features and samples are compared too, and evaluating the stored input must read chunks from the user's source.",
         "5/C12",
     ),
     "C13": (
@@ -82,7 +82,7 @@ CHECKS = {
     ),
     "C14": (
         "history checker against a sequential specification (answers == Q(fresh model fitted on the last fit's arguments)) after every operation of random call sequences + input-immutability monitor (deep snapshot / identical) + source-free failpoints (sys.monitoring LINE events inside xeofs/: a fit or transform interrupted at a chosen statement, stratified by source file, then a refit)",
-        "Random histories (quick <= 8, thorough <= 20 ops) over fit/transform/inverse_transform/queries/compute/serialize/rotator.fit/bootstrapper.fit (one aged bootstrapper object)/failing fits/interrupted fits and transforms on one object for every class; all ordered pairs fit(Da);fit(Db) of a 4-member data pool (every third case with MultiIndex samples) are enumerated; evidence lists injections and distinct statement sites.",
+        "Random histories (quick <= 8, thorough <= 20 ops) over fit/transform/inverse_transform/queries/compute/serialize/rotator.fit/bootstrapper.fit (one aged bootstrapper object)/failing fits/interrupted fits and transforms on one object for every class, the answers including every argument-free public accessor found by introspection and a fit of data with a coordinate-less dimension under the immutability monitor; all ordered pairs fit(Da);fit(Db) of a 4-member data pool (every third case with MultiIndex samples) are enumerated; evidence lists injections and distinct statement sites.",
         "5/C14",
     ),
     "C15": (
